@@ -4,7 +4,7 @@ CONSTANTS
   Root = "b0"
   InitReady = {TRUE}
   PCaps = {1, 2}
-  ACaps = {2, 3}
+  ACaps = {2}
   MaxBacklog = 1
   MaxParses = 2
   WithSync = FALSE
